@@ -32,6 +32,9 @@ SPANS = {
             ((-3.0, -1.0), [-2.75, -2.25, -2.0, -1.5, -1.125], 0.5), ((-1.0, -3.0), [-1.25, -1.75, -2.0, -2.5, -2.875], 0.5)],
     "osc": [((0.0, 3.0), [0.2, 0.45, 0.7, 1.0, 1.3], 0.25), ((3.0, 0.0), [2.9, 2.6, 2.3, 2.0, 1.75], 0.25), ((1.0, -2.0), [0.8, 0.55, 0.3, 0.05, -0.3], 0.25)],
 }
+# beside the convenient values: spans far from the origin of the time axis, steps that are not dyadic fractions
+SPANS["lin"] += [((-34.0, -31.0), [-33.75, -32.75, -32.5, -32.0, -31.25], 0.3), ((34.0, 31.0), [33.75, 32.75, 32.5, 32.0, 31.25], 0.3)]
+SPANS["osc"] += [((-35.0, -32.0), [-34.8, -34.55, -34.3, -34.0, -33.7], 0.1)]
 METHODS = ["EulerSolver", "RK4Solver", "RK45CKSolver", "ABAs5o6HSolver", "ImplicitMidpoint"]
 
 
